@@ -1,0 +1,56 @@
+/*
+ *  Verification hooks. Compiled only with the cargo feature `verif` (off by default).
+ *  Nothing in here changes the behaviour of the library: `sched_point` is a no-op
+ *  unless a callback was installed, the lattice dump is read-only.
+ */
+
+//! Hooks for external verification harnesses (feature `verif`)
+
+use std::sync::atomic::{AtomicUsize, Ordering};
+
+static SCHED_HOOK: AtomicUsize = AtomicUsize::new(0);
+
+/// Install (or remove with `None`) the callback invoked at every scheduling point
+pub fn set_sched_hook(hook: Option<fn(&'static str)>) {
+    let raw = match hook {
+        Some(f) => f as usize,
+        None => 0,
+    };
+    SCHED_HOOK.store(raw, Ordering::SeqCst);
+}
+
+/// A point where a controlled scheduler may switch to another thread
+#[inline]
+pub fn sched_point(label: &'static str) {
+    let raw = SCHED_HOOK.load(Ordering::Relaxed);
+    if raw != 0 {
+        let f: fn(&'static str) = unsafe { std::mem::transmute(raw) };
+        f(label)
+    }
+}
+
+/// Read-only copy of a lattice node
+#[derive(Debug, Clone, PartialEq, Eq)]
+pub struct VerifNode {
+    pub begin: usize,
+    pub end: usize,
+    pub left_id: u16,
+    pub right_id: u16,
+    pub cost: i16,
+    pub word_id: u32,
+    /// cumulative cost of the best path from BOS up to and including this node
+    pub total_cost: i32,
+    /// (end boundary, index) of the best previous node; (u16::MAX, u16::MAX) if none
+    pub prev: (u16, u16),
+}
+
+/// Read-only copy of the lattice after `do_tokenize`
+#[derive(Debug, Clone, Default)]
+pub struct VerifLattice {
+    /// number of boundaries (= characters of the normalised text + 1)
+    pub size: usize,
+    /// nodes grouped by end boundary, in insertion order (boundary 0 is BOS and not listed)
+    pub ends: Vec<Vec<VerifNode>>,
+    /// previous node and total cost of EOS, if connected
+    pub eos: Option<((u16, u16), i32)>,
+}
